@@ -39,3 +39,7 @@ chk('C03','exploration',
  'Differential against the Linux kernel under a switched fsuid/fsgid (locked OS thread, no supplementary groups) in a chroot on tmpfs: each of 38 path-taking calls is issued by a MemFS view with SetUser(u) and by the kernel-side thread with u\'s ids on an identical configuration of owners, groups and 9 permission bits over /w/d1/d2/x and /w/e1/y; allow/refuse, errno, returned values and the whole tree afterwards (owner, group, mode of created objects, umask effect) are compared. Exhaustive over the 512 modes of each single node (quick: 1/8 by seed) x 6 ownerships x 4 acting users, plus fully random configurations.',
  'only the 9 permission bits; fs.protected_hardlinks=1 cases excluded and counted; the partial effect of a failed RemoveAll is not compared',
  'kernel differential under per-thread setfsuid/setfsgid','DESIGN.md §5 C03')
+chk('C14','exploration',
+ 'Differential against filepath.Glob / os.ReadDir / filepath.WalkDir on an identical tree built in lockstep on the kernel (chroot on tmpfs): ~35 patterns per tree (metacharacters, classes, negations, escapes, malformed patterns, relative patterns), ReadDir of every directory, WalkDir from several roots with the callback returning SkipDir / SkipAll / an error at every visit index (exhaustive per tree), and the helpers Exists/DirExists/IsDir/IsEmpty against Stat/ReadDir of the same file system; on MemFS (with symbolic links), OrefaFS, RoFS and FailFS over them, BasePathFS over a rebuilt copy.',
+ 'lexically clean patterns (unclean spellings, incl. the empty pattern, are defined by Clean() in C01); unreadable directories are exercised through C03',
+ 'kernel/stdlib differential with exhaustive walk cut-points','DESIGN.md §5 C14')
